@@ -201,7 +201,7 @@ func runC0607(cfg *config, res *monitor.Result) {
 					seen := map[string]bool{}
 					for _, it := range o.items {
 						k := it.String()
-						if it.InWKT && (t.pkg.Flavour == "gogo" || it.Kind == "unknown-changed") {
+						if (it.InWKT && (t.pkg.Flavour == "gogo" || it.Kind == "unknown-changed")) || (it.Foreign && it.Kind == "unknown-changed") {
 							continue // decoded/encoded by the runtime's own code for its well-known types (protobuf-go re-encodes the keys of unknown fields minimally)
 						}
 						if seen[k] {
